@@ -117,6 +117,9 @@ func run(args []string, stdout io.Writer) error {
 		}
 		if o.codec == "avc" {
 			for _, nalu := range nalus {
+				if len(nalu) == 0 { // e.g. from two start codes in a row
+					continue
+				}
 				switch avc.GetNaluType(nalu[0]) {
 				case avc.NALU_SPS:
 					if len(ppsNalus) > 0 {
@@ -132,6 +135,9 @@ func run(args []string, stdout io.Writer) error {
 
 		// hevc
 		for _, nalu := range nalus {
+			if len(nalu) == 0 { // e.g. from two start codes in a row
+				continue
+			}
 			switch naluType := hevc.GetNaluType(nalu[0]); naluType {
 			case hevc.NALU_VPS:
 				if len(spsNalus) > 0 {
